@@ -14,7 +14,8 @@ T2_SOURCES = ["src/fiber_manager.c", "src/fiber.c", "src/fiber_mutex.c", "src/fi
               "src/hazard_pointer.c", "src/fiber_cond.c", "src/fiber_semaphore.c", "src/fiber_barrier.c",
               "src/fiber_context.c", "src/fiber_scheduler_wsd.c", "src/work_stealing_deque.c",
               "src/fiber_event_native.c", "src/fiber_io.c", "src/fiber_rwlock.c", "src/work_queue.c"]
-T2_FLAGS = ["-Dpthread_create=t2_pthread_create", "-Depoll_wait=t2_epoll_wait"]
+T2_FLAGS = ["-Dpthread_create=t2_pthread_create", "-Depoll_wait=t2_epoll_wait",
+            "-Dtimerfd_create=t2_timerfd_create", "-Dtimerfd_settime=t2_timerfd_settime"]
 
 EV_SCHED, EV_NEXT, EV_STEAL, EV_SW_OLD, EV_RESUMED, EV_DESTROY, EV_CREATE, EV_CREATE_T = 951, 952, 953, 954, 955, 956, 957, 958
 EV_SW_NEW = 964
@@ -177,7 +178,7 @@ def gen_cases(ctx, tier):
         for _f in range(nf):
             p = []
             for _ in range(rng.randint(1, 6)):
-                opc = rng.choice([1, 1, 2, 3, 2, 3, 4, 5, 6, 7, 8, 9, 9, 9, 10, 10, 11, 12, 13, 13, 14, 14, 15, 15, 16, 17, 17])
+                opc = rng.choice([1, 1, 2, 3, 2, 3, 4, 5, 6, 7, 8, 9, 9, 9, 10, 10, 11, 12, 13, 13, 14, 14, 15, 15, 16, 17, 17, 18, 18, 18])
                 p.append((opc, rng.randint(0, 1)))
             progs.append(p)
         length = rng.randint(50, 2500)
@@ -294,7 +295,7 @@ TRUSTED = [
     "Print Assumptions of each theorem (recorded under print_assumptions)",
     "extraction: ExtrOcamlBasic only; OCaml driver",
     "rt/rt.c baton scheduler + rt/t2.c (whole real runtime: real context switch, run queues, managers; kernel threads under "
-    "the baton; epoll never blocks and reports nothing); guarded protocol-event hooks in /repo",
+    "the baton; epoll never blocks; the timer is an eventfd advanced one tick per idle poll / main-fiber round); guarded protocol-event hooks in /repo",
     "tools/vf/props/C01.py:to_labels (decoding of trace events into labels) and the inference of the end of do_maintenance (Kernel.kstep_auto)",
     "protocol machine coq/Kernel.v written by hand; tie = trace inclusion: every event of every real run must be enabled in the machine",
 ]
